@@ -347,6 +347,39 @@ func c08Bodies(c *Ctx, cfns []*ssa.Function) {
 			}
 		}
 	}
+	// forwarders: a function that returns the response of such a call as it is (a thin `dispatch` wrapper around
+	// the handler) hands the ownership to its caller: its callers are the ones that obtain the response
+	forwarders := map[*ssa.Function]bool{}
+	isSource := func(call *ssa.Call) bool {
+		nm := ir.CallName(call)
+		if nm == "(mcp.HTTPReqHandler).Handle" || nm == "(*net/http.Client).Do" {
+			return true
+		}
+		sc := ir.StaticCallee(call)
+		return sc != nil && forwarders[sc]
+	}
+	for changed := true; changed; {
+		changed = false
+		for _, fn := range cfns {
+			if forwarders[fn] || fn.Signature.Results().Len() == 0 || ir.TypeStr(fn.Signature.Results().At(0).Type()) != "*net/http.Response" {
+				continue
+			}
+			ir.EachInstr(fn, func(_ *ssa.BasicBlock, _ int, in ssa.Instruction) {
+				r, ok := in.(*ssa.Return)
+				if !ok || len(r.Results) == 0 {
+					return
+				}
+				v := r.Results[0]
+				if ex, ok := v.(*ssa.Extract); ok {
+					v = ex.Tuple
+				}
+				if call, ok := v.(*ssa.Call); ok && isSource(call) && !forwarders[fn] {
+					forwarders[fn] = true
+					changed = true
+				}
+			})
+		}
+	}
 	n := 0
 	for _, fn := range cfns {
 		ir.EachInstr(fn, func(_ *ssa.BasicBlock, _ int, in ssa.Instruction) {
@@ -354,12 +387,11 @@ func c08Bodies(c *Ctx, cfns []*ssa.Function) {
 			if !ok {
 				return
 			}
-			nm := ir.CallName(call)
-			if nm != "(mcp.HTTPReqHandler).Handle" && nm != "(*net/http.Client).Do" {
+			if !isSource(call) {
 				return
 			}
-			if ir.Outer(fn).Name() == "Handle" {
-				return // the default handler forwards the response to its caller
+			if ir.Outer(fn).Name() == "Handle" || forwarders[fn] {
+				return // the default handler / a thin wrapper forwards the response to its caller
 			}
 			var resp ssa.Value
 			for _, r := range *call.Referrers() {
@@ -375,10 +407,8 @@ func c08Bodies(c *Ctx, cfns []*ssa.Function) {
 			if n > 0 {
 				cnt := 0
 				ir.EachInstr(fn, func(_ *ssa.BasicBlock, _ int, x ssa.Instruction) {
-					if c2, ok := x.(*ssa.Call); ok && c2.Pos() <= call.Pos() {
-						if m := ir.CallName(c2); m == "(mcp.HTTPReqHandler).Handle" || m == "(*net/http.Client).Do" {
-							cnt++
-						}
+					if c2, ok := x.(*ssa.Call); ok && c2.Pos() <= call.Pos() && isSource(c2) {
+						cnt++
 					}
 				})
 				if cnt > 1 {
